@@ -319,6 +319,7 @@ func genCase(t *rapid.T, f features) (*Case, map[string]int) {
 		addCycle(t, c, g, cpaths)
 	}
 	c.AbsMain = pct(t, "absmain", 40)
+	c.Prelude = pct(t, "prelude", 30)
 	if !f.on["main-location-unknown"] {
 		for _, p := range c.Pkgs[0].Imports {
 			if to, ok := m.resolve(mainDir, p); ok && g.tr.edgeFeature("main-location-unknown", edge{mainDir, p, to}) {
@@ -426,6 +427,9 @@ func addCycle(t *rapid.T, c *Case, g *genState, cpaths []string) int {
 func labels(c *Case, e *expectation) (ls []string, nontrivial bool) {
 	set := map[string]bool{}
 	add := func(format string, a ...any) { set[fmt.Sprintf(format, a...)] = true }
+	if c.Prelude {
+		add("second-program-on-the-interpreter")
+	}
 	nonGopath := false
 	targets := map[string]map[string]bool{}
 	m := newModel(c)
